@@ -78,3 +78,8 @@ Example accepts_ex : accepts_identity SDelegate 0 2 2 = true /\ accepts_identity
                      needs_grant SDelegate 0 2 2 = true /\ needs_grant SDelegate 0 0 0 = false /\
                      needs_grant DSetWithdrawAddress 0 2 0 = false.
 Proof. repeat split. Qed.
+
+Lemma grant_needed_iff_and_parties :
+  forall m o c named, (is_stake_spend m || is_ics_spend m)%bool = true ->
+    (needs_grant m o c named = true <-> c <> o) /\ grant_parties m o c named = (o, c).
+Proof. intros m o c named H. exact (conj (grant_needed_iff m o c named H) (grant_is_signer_to_caller m o c named H)). Qed.
